@@ -37,7 +37,9 @@ func checkC05(c *Ctx) {
 	}
 	for _, s := range callsIn(adv, false, func(cc *ssa.CallCommon) bool { return calleeIs(cc, nextView) }) {
 		facts := fl.At(s)
-		okStop := afterOf(facts, func(k string) bool { return strings.HasPrefix(k, "(*hs/protocol/synchronizer.Synchronizer).stopTimeoutTimer(p0)") })
+		okStop := afterOf(facts, func(k string) bool {
+			return strings.HasPrefix(k, "(*hs/protocol/synchronizer.Synchronizer).stopTimeoutTimer(p0)")
+		})
 		w1 := reachAvoid(s, isReturn, isCallTo(startT))
 		w2 := reachAvoid(s, isReturn, isStoreLastTimeoutNil)
 		c.Check(okStop && w1 == nil && w2 == nil, "C05.1", "advanceView: timer restarted and last timeout forgotten on every advance", p.Pos(s.Pos()),
